@@ -178,7 +178,7 @@ def check_case(c, model_out=None):
 
 
 def correspond(run):
-    n = 300 if run.tier == "quick" else 20000
+    n = 1500 if run.tier == "quick" else 20000
     cases = common.load_corpus(PROP) + [gen_case(run.rng) for _ in range(n)]
     try:
         outs = common.drive([op_line(c) for c in cases])
